@@ -119,6 +119,25 @@ def check_default():
             continue
         if m.heralds != c.heralds or m.input_modes != c.input_modes or np.abs(m.U_full - c.U_full).max() > TOL:
             fails.append((f"heralds{hs}", f"heralds {m.heralds} vs {c.heralds}"))
+    # one Reck object used again after the SAME circuit object was changed in place (component appended, parameter moved, sub-circuit added)
+    r = inter.Reck()
+    p_ = lw.Parameter(0.3)
+    c = lw.Circuit(4)
+    c.bs(0)
+    c.ps(1, p_)
+    c.bs(2, reflectivity=0.3)
+    steps = [("first map", lambda: None), ("bs appended", lambda: c.bs(1, reflectivity=0.7)), ("parameter set", lambda: p_.set(1.9)),
+             ("unitary added", lambda: c.add(lw.Unitary(haar(2, 3)), 2)), ("unchanged", lambda: None)]
+    for what, step in steps:
+        n += 1
+        step()
+        try:
+            m = r.map(c)
+            err = np.abs(m.U - c.U).max()
+            if err > TOL:
+                fails.append((f"reused Reck object; {what}", f"mapped unitary differs from the circuit's current unitary by {err:.2e}"))
+        except Exception as e:  # noqa: BLE001
+            fails.append((f"reused Reck object; {what}", f"map raised {type(e).__name__}: {e}"))
     return _obl("lightworks/interferometers/reck.py:Reck.map#bnd.reproduces-unitary", n, fails,
                 "map(c).U = c.U to 1e-12 (observed worst 1e-15), adjacent BS + PS only, phases in [0,2pi), heralds kept; identity, all permutations n<=4, phased permutations, block-diagonal, sparse, DFT, near-degenerate, Haar")
 
